@@ -347,9 +347,11 @@ def _check_run(ctx, cv, res, log, tr0_leaves, labels, n, b, t, c, effect, tag):
     if not (isinstance(n_chains_v, (int, np.integer)) and int(n_chains_v) == c):
         cv.violation(pfx + "n_chains|wrong", **where, observed=repr(n_chains_v), expected=c)
     # ---- chains use different randomness: when two chains accept a move at the same step, no
-    # choice leaf that moved in both may land on the bit-identical value
+    # random choice that moved in both may land on the bit-identical value
     if c > 1:
-        ch = [k for k in range(len(labels)) if labels[k][0] == "choices"]
+        # only the random choices themselves (the leaves of get_choices()); scores and the like are
+        # recomputed deterministically and agree between chains that start from the same state
+        ch = [k for k in range(len(labels)) if labels[k][1].endswith("._choices")]
         for p in range(c):
             for q in range(p + 1, c):
                 both = [s for s in range(len(lanes[p])) if bool(lanes[p][s][2]) and bool(lanes[q][s][2])]
